@@ -184,6 +184,7 @@ func (c *c06) imageCases(m mMap, acc *sema.EntitlementMapAccess, mk func(in mAut
 		}
 	}
 	// monotone: a grants at least b  ⇒  Image(a) grants at least Image(b)
+	var monoPairs int64
 	for i := 0; i < n; i++ {
 		if !have[i] {
 			continue
@@ -192,6 +193,7 @@ func (c *c06) imageCases(m mMap, acc *sema.EntitlementMapAccess, mk func(in mAut
 			if i == j || !have[j] || !leqTab[i][j] {
 				continue
 			}
+			monoPairs++
 			if !leq(outs[i], outs[j]) {
 				cs := mk(c.auth[i])
 				b := c.auth[j]
@@ -201,7 +203,7 @@ func (c *c06) imageCases(m mMap, acc *sema.EntitlementMapAccess, mk func(in mAut
 			}
 		}
 	}
-	c.rec.Evals(int64(n * n))
+	c.rec.Evals(monoPairs) // monotonicity pairs actually compared
 }
 
 func popcount(x uint8) int {
@@ -244,7 +246,7 @@ func (c *c06) partA() {
 	// space (2 * 65536 maps x 31 inputs) is split over shards; quick covers it
 	// completely with VERIF_SCALE >= 1.
 	leqTab := c.leqTable()
-	// quick: all 65536 relation sets without identity, and every 8th with identity
+	// quick: all 65536 relation sets without identity, and every 16th with identity
 	// (offset by the seed); thorough: everything. VERIF_SCALE < 1 thins both.
 	total := 1 << 17
 	limit := evid.N(total, total)
@@ -258,7 +260,7 @@ func (c *c06) partA() {
 	}
 	idStride := 1
 	if !evid.Thorough() {
-		idStride = 8
+		idStride = 16
 	}
 	idOffset := int(evid.Seed() % int64(idStride))
 	count := 0
@@ -274,7 +276,7 @@ func (c *c06) partA() {
 	}
 	c.rec.Extra("image_maps_enumerated", count)
 	if stride == 1 {
-		what := "all 65536 relation sets without identity and every 8th with identity"
+		what := "all 65536 relation sets without identity and every 16th with identity"
 		if idStride == 1 {
 			what = "all 2*65536 relation sets (with/without identity)"
 		}
@@ -714,7 +716,7 @@ func TestC06(t *testing.T) {
 		c.includeChains(evid.N(400, 4000))
 	}
 
-	nU := evid.N(6, 60)
+	nU := evid.N(5, 60)
 	seeds := make([]int64, 0, nU)
 	r := evid.Rand(77)
 	for i := 0; i < nU; i++ {
@@ -726,12 +728,12 @@ func TestC06(t *testing.T) {
 	}
 	sort.Slice(seeds, func(i, j int) bool { return seeds[i] < seeds[j] })
 	for _, s := range seeds {
-		c.programsFor(s, evid.N(48, 120))
+		c.programsFor(s, evid.N(40, 120))
 	}
 	if os.Getenv("VERIF_C06_PART") == "B" {
 		return
 	}
-	rec.RequireClasses(t, "image/disj->unauth", "image/disj->disj", "image/conj->conj", "image/unrepresentable", "image-include/depth2",
+	requireClasses(t, rec, "image/disj->unauth", "image/disj->disj", "image/conj->conj", "image/unrepresentable", "image-include/depth2",
 		"program/chain:both-accepted", "program/chain:both-rejected", "program/chain:only-original", "program/upcast-accepted=true",
 		"program/run:interpreter", "program/run:vm")
 }
@@ -752,9 +754,8 @@ func (c *c06) replay(cs c06Case) {
 	case "image-include":
 		c.t.Skip("include-chain cases are replayed by re-running the sampled programs (deterministic for the seed)")
 	case "program":
-		c.programsFor(cs.Seed, evid.N(48, 120))
+		c.programsFor(cs.Seed, evid.N(40, 120))
 	default:
 		c.t.Fatalf("unknown part %q", cs.Part)
 	}
 }
-
